@@ -34,6 +34,7 @@ import (
 	"verif/harness/internal/sched"
 	"verif/harness/internal/spec"
 	"verif/harness/internal/store"
+	"verif/harness/internal/world"
 )
 
 type probe struct{ c *spec.Case }
@@ -313,3 +314,204 @@ func evs(es []sched.Event) []string {
 	}
 	return out
 }
+
+// R1: a Binding pod (in-flight BindRequest with a claim allocation) is evicted, un-evicted, evicted again.
+func TestDRAProbeEvictedBindingPod(t *testing.T) {
+	p := newProbe(map[string]int{"n0": 2})
+	p.group("pg-b", 1)
+	p.claim("claim-b", nil)
+	p.pod("b", "pg-b", "claim-b", "n0", false, alloc("n0", "d1"))
+	p.run(t, func(ssn *framework.Session, task func(string, string) *pod_info.PodInfo) {
+		b := task("pg-b", "b")
+		show(t, "at session open:", claimLines(ssn))
+		show(t, "oracle:", mon.CheckClaims(ssn, map[string]int{}))
+		stmt := ssn.Statement()
+		_ = stmt.Evict(b, "probe", eviction_info.EvictionMetadata{})
+		show(t, "after Evict(b):", claimLines(ssn))
+		show(t, "oracle:", mon.CheckClaims(ssn, map[string]int{}))
+		_ = stmt.Pipeline(b, "n0", false)
+		show(t, "after Pipeline(b, n0) [un-evict]:", claimLines(ssn))
+		show(t, "oracle:", mon.CheckClaims(ssn, map[string]int{}))
+		stmt.Discard()
+		show(t, "after Discard():", claimLines(ssn))
+		show(t, "oracle:", mon.CheckClaims(ssn, map[string]int{}))
+		stmt2 := ssn.Statement()
+		_ = stmt2.Evict(b, "probe", eviction_info.EvictionMetadata{})
+		show(t, "after a second Evict(b):", claimLines(ssn))
+		show(t, "oracle:", mon.CheckClaims(ssn, map[string]int{}))
+		stmt2.Discard()
+		show(t, "after Discard():", claimLines(ssn))
+	})
+}
+
+// R2: the victim's device goes to the preemptor, then the victim is placed on its own node again (un-evict path).
+func TestDRAProbeUnevictAfterDeviceWentToPreemptor(t *testing.T) {
+	p := newProbe(map[string]int{"n0": 2})
+	p.group("pg-v", 1)
+	p.group("pg-p", 1)
+	p.claim("claim-v", alloc("n0", "d0"), "v")
+	p.claim("claim-p", nil)
+	p.pod("v", "pg-v", "claim-v", "n0", true, nil)
+	p.pod("p", "pg-p", "claim-p", "", false, nil)
+	p.run(t, func(ssn *framework.Session, task func(string, string) *pod_info.PodInfo) {
+		v, pp := task("pg-v", "v"), task("pg-p", "p")
+		show(t, "before:", claimLines(ssn))
+		stmt := ssn.Statement()
+		_ = stmt.Evict(v, "probe", eviction_info.EvictionMetadata{})
+		_ = stmt.Pipeline(pp, "n0", false)
+		show(t, "after Evict(v); Pipeline(p, n0):", claimLines(ssn))
+		_ = stmt.Pipeline(v, "n0", false)
+		show(t, "after Pipeline(v, n0) [un-evict path]:", claimLines(ssn))
+		show(t, "C14 claim oracle:", mon.CheckClaims(ssn, map[string]int{}))
+		stmt.Discard()
+		show(t, "after Discard():", claimLines(ssn))
+		show(t, "C14 claim oracle:", mon.CheckClaims(ssn, map[string]int{}))
+	})
+}
+
+// R5: two pending pods share an unallocated claim; Allocate both, Discard.
+func TestDRAProbeDiscardLeavesRememberedAllocation(t *testing.T) {
+	p := newProbe(map[string]int{"n0": 1})
+	p.group("pg-s", 1)
+	p.claim("claim-s", nil)
+	p.pod("b1", "pg-s", "claim-s", "", false, nil)
+	p.pod("b2", "pg-s", "claim-s", "", false, nil)
+	p.run(t, func(ssn *framework.Session, task func(string, string) *pod_info.PodInfo) {
+		b1, b2 := task("pg-s", "b1"), task("pg-s", "b2")
+		before := claimLines(ssn)
+		show(t, "before:", before)
+		stmt := ssn.Statement()
+		_ = stmt.Allocate(b1, "n0")
+		_ = stmt.Allocate(b2, "n0")
+		show(t, "after Allocate(b1, n0); Allocate(b2, n0):", claimLines(ssn))
+		stmt.Discard()
+		after := claimLines(ssn)
+		show(t, "after Discard():", after)
+		t.Logf("dump equal: %v", strings.Join(before, "|") == strings.Join(after, "|"))
+	})
+}
+
+var claimGVRProbe = resourceapi.SchemeGroupVersion.WithResource("resourceclaims")
+
+// persistentProbe runs n cycles on ONE scheduler cache; between(i) runs after cycle i, open(i, ssn) at the open of cycle i.
+func (p *probe) persistent(t *testing.T, n int, open func(cycle int, ssn *framework.Session), between func(cycle int, st *store.Store)) [][]sched.Event {
+	st := store.New()
+	if err := st.Add(p.c.Objects.All()...); err != nil {
+		t.Fatal(err)
+	}
+	st.GracefulPods.Store(true)
+	cycle := 0
+	hooks := sched.Hooks{AfterOpen: func(ssn *framework.Session, rc *sched.RecCache) {
+		cycle++
+		if open != nil {
+			open(cycle, ssn)
+		}
+	}}
+	p.c.Config.Actions = "allocate"
+	r, err := sched.NewRunner(st, p.c, gen.NewRand(1, 0, 2), hooks)
+	if err != nil {
+		t.Fatal(err)
+	}
+	r.Persistent = true
+	defer r.Close()
+	var out [][]sched.Event
+	for i := 1; i <= n; i++ {
+		cr := r.Cycle()
+		if cr.Panic != "" || cr.OpenErr != "" {
+			t.Fatalf("cycle %d: panic=%q openErr=%q", i, cr.Panic, cr.OpenErr)
+		}
+		out = append(out, cr.Events)
+		if between != nil {
+			between(i, st)
+		}
+	}
+	return out
+}
+
+// R3: the in-flight allocation of a bind request is signalled at session open and never withdrawn. One scheduler
+// cache: cycle 1 sees b Binding (in flight, n0/d0); the binder completes; later b is deleted and its claim
+// deallocated. The only device of the node never becomes available to the pending pod p again.
+func TestDRAProbeInFlightAllocationNeverWithdrawn(t *testing.T) {
+	p := newProbe(map[string]int{"n0": 1})
+	p.group("pg-b", 1)
+	p.group("pg-p", 1)
+	p.claim("claim-b", nil)
+	p.claim("claim-p", nil)
+	p.pod("b", "pg-b", "claim-b", "n0", false, alloc("n0", "d0"))
+	p.pod("p", "pg-p", "claim-p", "", false, nil)
+	podGVR := v1.SchemeGroupVersion.WithResource("pods")
+	brGVR := schedulingv1alpha2.GroupVersion.WithResource("bindrequests")
+	evs := p.persistent(t, 4, func(cycle int, ssn *framework.Session) {
+		show(t, fmt.Sprintf("cycle %d at session open:", cycle), claimLines(ssn))
+		show(t, "  C14 claim oracle:", mon.CheckClaims(ssn, map[string]int{}))
+	}, func(cycle int, st *store.Store) {
+		switch cycle {
+		case 1: // the binder completes the bind of b
+			o, _ := st.Tracker.Get(claimGVRProbe, "ns", "claim-b")
+			c := o.(*resourceapi.ResourceClaim).DeepCopy()
+			c.Status.Allocation = alloc("n0", "d0")
+			c.Status.ReservedFor = []resourceapi.ResourceClaimConsumerReference{{Resource: "pods", Name: "b", UID: "uid-b"}}
+			_ = st.Tracker.Update(claimGVRProbe, c, "ns")
+			po, _ := st.Tracker.Get(podGVR, "ns", "b")
+			pod := po.(*v1.Pod).DeepCopy()
+			pod.Spec.NodeName, pod.Status.Phase = "n0", v1.PodRunning
+			_ = st.Tracker.Update(podGVR, pod, "ns")
+			bo, _ := st.Tracker.Get(brGVR, "ns", "b")
+			br := bo.(*schedulingv1alpha2.BindRequest).DeepCopy()
+			br.Status.Phase = schedulingv1alpha2.BindRequestPhaseSucceeded
+			_ = st.Tracker.Update(brGVR, br, "ns")
+			t.Logf("-- after cycle 1: bind of b completed (claim-b allocated n0/d0, reserved for b, b Running)")
+		case 2: // b finishes and is deleted; the claim controller deallocates its claim
+			_ = st.Tracker.Delete(podGVR, "ns", "b")
+			_ = st.Tracker.Delete(brGVR, "ns", "b")
+			_, _ = world.ReconcileClaims(st)
+			t.Logf("-- after cycle 2: pod b and its bind request are gone, claim-b is deallocated; n0/d0 is free")
+		}
+	})
+	for i, e := range evs {
+		t.Logf("cycle %d events: %v", i+1, evsOf(e))
+	}
+}
+
+// R4: as TestDRAProbePersistentCacheRestoreOrder, but the victim's claim object is written between the cycles (any
+// update: here an annotation), so the informer has re-added its devices before the next session restores the claims.
+func TestDRAProbeRestoreAfterInformerUpdate(t *testing.T) {
+	p := newProbe(map[string]int{"n0": 1})
+	p.group("pg-a", 1)
+	p.group("pg-p", 1)
+	p.claim("claim-a", alloc("n0", "d0"), "a")
+	p.claim("claim-p", nil)
+	p.pod("a", "pg-a", "claim-a", "n0", true, nil)
+	p.pod("p", "pg-p", "claim-p", "", false, nil)
+	find := func(ssn *framework.Session, group, pod string) *pod_info.PodInfo {
+		for _, ti := range ssn.ClusterInfo.PodGroupInfos[common_info.PodGroupID(group)].GetAllPodsMap() {
+			if ti.Name == pod {
+				return ti
+			}
+		}
+		return nil
+	}
+	evs := p.persistent(t, 2, func(cycle int, ssn *framework.Session) {
+		if cycle == 1 {
+			stmt := ssn.Statement()
+			_ = stmt.Evict(find(ssn, "pg-a", "a"), "probe", eviction_info.EvictionMetadata{})
+			_ = stmt.Pipeline(find(ssn, "pg-p", "p"), "n0", false)
+			_ = stmt.Commit()
+			return
+		}
+		show(t, "cycle 2 at session open (a is still terminating, claim-a holds n0/d0 in the API):", claimLines(ssn))
+		show(t, "  C14 claim oracle:", mon.CheckClaims(ssn, map[string]int{}))
+	}, func(cycle int, st *store.Store) {
+		if cycle == 1 {
+			o, _ := st.Tracker.Get(claimGVRProbe, "ns", "claim-a")
+			c := o.(*resourceapi.ResourceClaim).DeepCopy()
+			c.Annotations = map[string]string{"touched": "1"}
+			_ = st.Tracker.Update(claimGVRProbe, c, "ns")
+		}
+	})
+	for i, e := range evs {
+		t.Logf("cycle %d events: %v", i+1, evsOf(e))
+	}
+}
+
+func evsOf(es []sched.Event) []string { return evs(es) }
